@@ -632,6 +632,7 @@ func CheckC19(e *Env) int {
 			}
 		}
 	}
+	showSameSpelling(e, rep)
 	return rep.Finish(t0)
 }
 
@@ -640,4 +641,62 @@ func min(a, b int) int {
 		return a
 	}
 	return b
+}
+
+// showSameSpelling: two different types that are spelled alike (unnamed structs whose
+// unexported field belongs to different packages). show has to list every type a set can
+// provide, and print the same text on every run.
+func showSameSpelling(e *Env, rep *Report) {
+	id := "shsame"
+	p := &Program{ID: id, Module: ModulePath, Extra: map[string]string{}, Feat: map[string]string{"shape": "show-same-spelling"}, RawDriver: true}
+	p.Pkgs = []*Pkg{{Name: "app", Dir: "app"}, {Name: "dep", Dir: "dep"}}
+	p.Extra["1/dep.go"] = "package dep\n\nfunc NewDep() struct{ a int } { return struct{ a int }{1} }\n\ntype FromDepT struct{ N int }\n\nfunc FromDep(v struct{ a int }) FromDepT { return FromDepT{v.a} }\n"
+	p.Extra["0/decl.go"] = "package app\n\nimport (\n\t\"github.com/google/wire\"\n\t\"" + p.ImportPath(1) + "\"\n)\n\nfunc NewLocal() struct{ a int } { return struct{ a int }{2} }\n\ntype FromLocalT struct{ N int }\n\nfunc FromLocal(v struct{ a int }) FromLocalT { return FromLocalT{v.a} }\n\nvar Both = wire.NewSet(dep.NewDep, NewLocal)\n\nvar Users = wire.NewSet(dep.FromDep, FromLocal)\n"
+	p.Extra["0/wire.go"] = "//go:build wireinject\n// +build wireinject\n\npackage app\n\nimport \"github.com/google/wire\"\n\nfunc Init() FromLocalT {\n\tpanic(wire.Build(Both, Users))\n}\n"
+	p.Extra["0/zz_driver.go"] = "//go:build !wireinject\n// +build !wireinject\n\npackage app\n\nfunc Scenarios() {}\n"
+	b, err := e.NewBatch("c19same", []*Program{p}, nil)
+	if err != nil {
+		rep.Incon = append(rep.Incon, "harness: "+err.Error())
+		return
+	}
+	defer b.Remove()
+	var first string
+	for k := 0; k < 8; k++ {
+		res := e.Wire(b.Root, nil, "show", "./"+id+"/app")
+		if res.TimedOut {
+			rep.Incon = append(rep.Incon, id+": watchdog")
+			return
+		}
+		if res.Exit != 0 {
+			rep.Incon = append(rep.Incon, "harness: "+id+": show failed: "+tail(res.Stderr, 300))
+			return
+		}
+		out := strings.ReplaceAll(res.Stdout, b.Root, "<root>")
+		if k == 0 {
+			first = out
+			so := parseShow(out)
+			key := fmt.Sprintf("%q.Both", p.ImportPath(0))
+			n := 0
+			if s := so.Sets[key]; s != nil {
+				for _, outs := range s.Groups {
+					for _, o := range outs {
+						if o == "struct{a int}" {
+							n++
+						}
+					}
+				}
+			}
+			if n != 2 {
+				rep.Violate(id, Issue{Prop: "C19", Clause: fmt.Sprintf("show lists %d of the 2 different types spelled struct{a int} that set Both provides", n), Witness: out, Sig: "C19:show-same-spelling:missing"}, p.Files(false), nil)
+				return
+			}
+			continue
+		}
+		if out != first {
+			rep.Violate(id, Issue{Prop: "C19", Clause: "show prints different text on different runs for one tree", Witness: firstDiff(first, out), Sig: "C19:show-same-spelling:unstable"}, p.Files(false), nil)
+			return
+		}
+	}
+	rep.Count("show_same_spelling_runs", 8)
+	rep.Held("show:same-spelling")
 }
